@@ -9,6 +9,20 @@
 //!   * dedup queries on the serialized shard and through a ShardFileManager (before and after flush) are truthful: the reported
 //!     xorb holds the queried hashes at [a, a+n) and the byte count is the sum of those chunk lengths - including runs that reach a
 //!     xorb's last chunk with further hashes following: a random one, the NEXT record's xorb hash, the all-ones bookend hash.
+//!   * "identically through the seekable, streaming and minimal readers" (check_every_reader): the file records and xorb records of
+//!     every shard are listed through EVERY reader - the in-memory shard, the seekable `read_all_file_info_sections`,
+//!     `read_file_info_ranges` (record re-assembled from the byte ranges it reports), `read_all_cas_blocks` (re-assembled from the
+//!     reported positions), `read_all_cas_blocks_full`; the sync streaming `process_shard_stream`, `process_shard_file_info_section`
+//!     + `process_shard_cas_info_section` (readers handing out everything / 1 / 7 bytes per call); the ASYNC streaming
+//!     `process_shard_stream_async` (with and without the callbacks), `process_shard_file_info_section_async` +
+//!     `process_shard_cas_info_section_async` (async readers handing out everything / 1 / 7 bytes per poll);
+//!     `MDBMinimalShard::from_reader` and `from_reader_async` with (files, xorbs) included = (t,t), (t,f), (f,t); and once more after a
+//!     `MDBMinimalShard::serialize` round trip (re-read by the seekable and by both minimal readers; the footer totals it writes ==
+//!     u64 sums over the records) - and every list must be byte-identical to the independent layout of the stored records, in hash
+//!     order.  Besides the shards above this runs on "zero-segment mixes": file records with ZERO segments in all four
+//!     (verification, metadata-ext) flag combinations mixed with ordinary records of all four combinations, in 16 hash orders
+//!     (zero-segment + metadata-ext record first / last / alone / twice in a row / ...), with zero-chunk xorbs first, last and in
+//!     the middle of the xorb section.
 //! Prints `WITNESS ...` and exits 1 on the first violation.
 use std::collections::BTreeMap;
 use std::io::{Cursor, Read, Seek, SeekFrom};
@@ -423,6 +437,245 @@ fn check_serialized(rng: &mut StdRng, name: &str, c: &Contents) {
     }
 }
 
+// ---------------------------------------------------------------------------------------------------------------------------------
+// every reader lists the same records (C09 "identically through the seekable, streaming and minimal readers")
+// ---------------------------------------------------------------------------------------------------------------------------------
+struct SyncDribble<'a> { data: &'a [u8], pos: usize, max: usize }
+impl Read for SyncDribble<'_> {
+    fn read(&mut self, buf: &mut [u8]) -> std::io::Result<usize> {
+        let n = buf.len().min(self.max).min(self.data.len() - self.pos);
+        buf[..n].copy_from_slice(&self.data[self.pos..self.pos + n]);
+        self.pos += n;
+        Ok(n)
+    }
+}
+struct AsyncDribble<'a> { data: &'a [u8], pos: usize, max: usize }
+impl futures::io::AsyncRead for AsyncDribble<'_> {
+    fn poll_read(mut self: std::pin::Pin<&mut Self>, _cx: &mut std::task::Context<'_>, buf: &mut [u8]) -> std::task::Poll<std::io::Result<usize>> {
+        let n = buf.len().min(self.max).min(self.data.len() - self.pos);
+        let pos = self.pos;
+        buf[..n].copy_from_slice(&self.data[pos..pos + n]);
+        self.pos += n;
+        std::task::Poll::Ready(Ok(n))
+    }
+}
+fn describe_file_bytes(b: &[u8]) -> String {
+    if b.len() < 48 { return format!("<{} bytes>", b.len()); }
+    let w = |o: usize| u64::from_le_bytes(b[o..o + 8].try_into().unwrap());
+    let flags = u32::from_le_bytes(b[32..36].try_into().unwrap());
+    let n = u32::from_le_bytes(b[36..40].try_into().unwrap());
+    format!("file [{:#x}, {:#x}, ..] flags {:#x} num_entries {n}, {} entries of 48 bytes after the header{}", w(0), w(8), flags, b.len() / 48 - 1,
+        if b.len() > 48 && n == 0 { format!(" (the last one starts with {:#x})", w(b.len() - 48)) } else { String::new() })
+}
+fn describe_xorb_bytes(b: &[u8]) -> String {
+    if b.len() < 48 { return format!("<{} bytes>", b.len()); }
+    let w = |o: usize| u64::from_le_bytes(b[o..o + 8].try_into().unwrap());
+    format!("xorb [{:#x}, {:#x}, ..] num_entries {}, {} entries after the header", w(0), w(8), u32::from_le_bytes(b[36..40].try_into().unwrap()), b.len() / 48 - 1)
+}
+/// the list delivered by one reader against the independent layout of the stored records
+fn same_list(ctx: &str, reader: &str, kind: &str, got: &[Vec<u8>], want: &[Vec<u8>]) {
+    if got == want { return; }
+    let describe = |b: &[u8]| if kind == "file" { describe_file_bytes(b) } else { describe_xorb_bytes(b) };
+    let at = (0..got.len().min(want.len())).find(|&i| got[i] != want[i]);
+    let detail = match at {
+        Some(i) => format!("record #{i} (hash order) is stored as {{{}}} but delivered as {{{}}}", describe(&want[i]), describe(&got[i])),
+        None if got.len() > want.len() => format!("the first {} agree, then it delivers extra records, the first being {{{}}}", want.len(), describe(&got[want.len()])),
+        None => format!("the first {} agree, then it stops; the next stored record is {{{}}}", got.len(), describe(&want[got.len()])),
+    };
+    let stored: Vec<String> = if kind == "file" && want.len() <= 12 { want.iter().map(|b| describe(b)).collect() } else { vec![] };
+    witness(format!("{ctx}: {reader} lists {} {kind} records, the shard stores {}: {detail}{}", got.len(), want.len(), if stored.is_empty() { String::new() } else { format!("; stored file records in order: {}", stored.join(" | ")) }));
+}
+type ViewLists = (Vec<Vec<u8>>, Vec<Vec<u8>>);
+fn minimal_lists(ctx: &str, what: &str, min: &MDBMinimalShard) -> ViewLists {
+    let f = (0..min.num_files()).map(|i| { let mut o = vec![]; guarded(ctx, || min.file(i).serialize(&mut o)).unwrap_or_else(|e| witness(format!("{ctx}: {what}: file({i}).serialize fails: {e}"))); o }).collect();
+    let x = (0..min.num_cas()).map(|i| { let mut o = vec![]; guarded(ctx, || min.cas(i).serialize(&mut o)).unwrap_or_else(|e| witness(format!("{ctx}: {what}: cas({i}).serialize fails: {e}"))); o }).collect();
+    (f, x)
+}
+
+fn check_every_reader(rng: &mut StdRng, name: &str, c: &Contents) {
+    use mdb_shard::cas_structs::MDBCASInfoView;
+    use mdb_shard::file_structs::MDBFileInfoView;
+    use mdb_shard::streaming_shard::{
+        process_shard_cas_info_section, process_shard_cas_info_section_async, process_shard_file_info_section, process_shard_file_info_section_async,
+        process_shard_stream, process_shard_stream_async,
+    };
+    let ctx = format!("shard '{name}' ({} files of which {} have zero segments, {} xorbs of which {} have zero chunks)", c.files.len(), c.files.values().filter(|f| f.segments.is_empty()).count(), c.xorbs.len(), c.xorbs.values().filter(|x| x.chunks.is_empty()).count());
+    let mem = build_mem(&ctx, c, rng);
+    let mut bytes = vec![];
+    guarded(&ctx, || MDBShardInfo::serialize_from(&mut bytes, &mem)).unwrap_or_else(|e| witness(format!("{ctx}: serialize_from failed: {e}")));
+    let want_files: Vec<Vec<u8>> = c.files.values().map(layout_file).collect();
+    let want_xorbs: Vec<Vec<u8>> = c.xorbs.values().map(layout_xorb).collect();
+    let none: Vec<Vec<u8>> = vec![];
+    const HDR: usize = 48; // MDBShardFileHeader: 32-byte tag, version, footer size
+
+    // the in-memory shard
+    same_list(&ctx, "the in-memory shard (file_content)", "file", &mem.file_content.values().map(layout_file).collect::<Vec<_>>(), &want_files);
+    same_list(&ctx, "the in-memory shard (cas_content)", "xorb", &mem.cas_content.values().map(|x| layout_xorb(x)).collect::<Vec<_>>(), &want_xorbs);
+
+    // seekable readers
+    let loaded = guarded(&ctx, || MDBShardInfo::load_from_reader(&mut Cursor::new(&bytes[..]))).unwrap_or_else(|e| witness(format!("{ctx}: load_from_reader fails: {e}")));
+    let r = &mut Cursor::new(&bytes[..]);
+    let got = guarded(&ctx, || loaded.read_all_file_info_sections(r)).unwrap_or_else(|e| witness(format!("{ctx}: read_all_file_info_sections fails: {e}")));
+    same_list(&ctx, "the seekable reader read_all_file_info_sections", "file", &got.iter().map(layout_file).collect::<Vec<_>>(), &want_files);
+    let got = guarded(&ctx, || loaded.read_all_cas_blocks_full(r)).unwrap_or_else(|e| witness(format!("{ctx}: read_all_cas_blocks_full fails: {e}")));
+    same_list(&ctx, "the seekable reader read_all_cas_blocks_full", "xorb", &got.iter().map(layout_xorb).collect::<Vec<_>>(), &want_xorbs);
+    let got = guarded(&ctx, || loaded.read_all_cas_blocks(r)).unwrap_or_else(|e| witness(format!("{ctx}: read_all_cas_blocks fails: {e}")));
+    let rebuilt: Vec<Vec<u8>> = got.iter().map(|(h, pos)| { let (a, b) = (*pos as usize, *pos as usize + 48 * (1 + h.num_entries as usize)); bytes.get(a..b).map(|x| x.to_vec()).unwrap_or_default() }).collect();
+    same_list(&ctx, "the seekable reader read_all_cas_blocks (records re-assembled from the positions it reports)", "xorb", &rebuilt, &want_xorbs);
+    if got.iter().map(|(h, _)| h.clone()).collect::<Vec<_>>() != c.xorbs.values().map(|x| x.metadata.clone()).collect::<Vec<_>>() {
+        witness(format!("{ctx}: read_all_cas_blocks returns headers that differ from the stored xorb headers"));
+    }
+    let got = guarded(&ctx, || MDBShardInfo::read_file_info_ranges(&mut Cursor::new(&bytes[..]))).unwrap_or_else(|e| witness(format!("{ctx}: read_file_info_ranges fails: {e}")));
+    let rebuilt: Vec<Vec<u8>> = got.iter().map(|(_h, (a, b), ver, sha)| {
+        let mut o = bytes.get((*a as usize).saturating_sub(48)..*b as usize).map(|x| x.to_vec()).unwrap_or_default();
+        if let Some((va, vb)) = ver { o.extend_from_slice(bytes.get(*va as usize..*vb as usize).unwrap_or(&[])); }
+        if let Some(sha) = sha { put_hash(&mut o, sha); o.extend_from_slice(&[0u8; 16]); }
+        o
+    }).collect();
+    same_list(&ctx, "the seekable reader read_file_info_ranges (records re-assembled from the byte ranges and sha256 it reports)", "file", &rebuilt, &want_files);
+    if got.iter().map(|g| g.0).collect::<Vec<_>>() != c.files.keys().cloned().collect::<Vec<_>>() {
+        witness(format!("{ctx}: read_file_info_ranges reports file hashes that differ from the stored ones"));
+    }
+
+    // sync streaming
+    for max in [usize::MAX, 1, 7] {
+        let how = if max == usize::MAX { "reader handing out everything".to_string() } else { format!("reader handing out {max} byte(s) per call") };
+        let (mut sf, mut sx) = (vec![], vec![]);
+        let res = guarded(&ctx, || process_shard_stream(
+            &mut SyncDribble { data: &bytes, pos: 0, max },
+            Some(|v: MDBFileInfoView| { let mut o = vec![]; v.serialize(&mut o)?; sf.push(o); Ok(()) }),
+            Some(|v: MDBCASInfoView| { let mut o = vec![]; v.serialize(&mut o)?; sx.push(o); Ok(()) }),
+        ));
+        if let Err(e) = res { witness(format!("{ctx}: process_shard_stream ({how}) fails: {e}")); }
+        same_list(&ctx, &format!("the sync streaming reader process_shard_stream ({how})"), "file", &sf, &want_files);
+        same_list(&ctx, &format!("the sync streaming reader process_shard_stream ({how})"), "xorb", &sx, &want_xorbs);
+        let (mut sf, mut sx) = (vec![], vec![]);
+        let mut rd = SyncDribble { data: &bytes[HDR..], pos: 0, max };
+        let res = guarded(&ctx, || {
+            process_shard_file_info_section(&mut rd, |v: MDBFileInfoView| { let mut o = vec![]; v.serialize(&mut o)?; sf.push(o); Ok(()) })?;
+            process_shard_cas_info_section(&mut rd, |v: MDBCASInfoView| { let mut o = vec![]; v.serialize(&mut o)?; sx.push(o); Ok(()) })
+        });
+        if let Err(e) = res { witness(format!("{ctx}: process_shard_file_info_section + process_shard_cas_info_section ({how}) fail: {e}")); }
+        same_list(&ctx, &format!("the sync walker process_shard_file_info_section ({how})"), "file", &sf, &want_files);
+        same_list(&ctx, &format!("the sync walker process_shard_cas_info_section after it ({how})"), "xorb", &sx, &want_xorbs);
+    }
+
+    // async streaming
+    for max in [usize::MAX, 1, 7] {
+        let how = if max == usize::MAX { "async reader handing out everything".to_string() } else { format!("async reader handing out {max} byte(s) per poll") };
+        let (mut sf, mut sx) = (vec![], vec![]);
+        let res = guarded(&ctx, || futures::executor::block_on(process_shard_stream_async(
+            &mut AsyncDribble { data: &bytes, pos: 0, max },
+            Some(|v: MDBFileInfoView| { let mut o = vec![]; v.serialize(&mut o)?; sf.push(o); Ok(()) }),
+            Some(|v: MDBCASInfoView| { let mut o = vec![]; v.serialize(&mut o)?; sx.push(o); Ok(()) }),
+        )));
+        if let Err(e) = res { witness(format!("{ctx}: process_shard_stream_async ({how}) fails: {e}; files delivered before the failure: {}", sf.len())); }
+        same_list(&ctx, &format!("the ASYNC streaming reader process_shard_stream_async ({how})"), "file", &sf, &want_files);
+        same_list(&ctx, &format!("the ASYNC streaming reader process_shard_stream_async ({how})"), "xorb", &sx, &want_xorbs);
+        // without the file callback: the xorb list must be unaffected by what the file walker skipped
+        let mut sx = vec![];
+        let res = guarded(&ctx, || futures::executor::block_on(process_shard_stream_async(
+            &mut AsyncDribble { data: &bytes, pos: 0, max },
+            None::<fn(MDBFileInfoView) -> mdb_shard::error::Result<()>>,
+            Some(|v: MDBCASInfoView| { let mut o = vec![]; v.serialize(&mut o)?; sx.push(o); Ok(()) }),
+        )));
+        if let Err(e) = res { witness(format!("{ctx}: process_shard_stream_async without a file callback ({how}) fails: {e}")); }
+        same_list(&ctx, &format!("the ASYNC streaming reader process_shard_stream_async without a file callback ({how})"), "xorb", &sx, &want_xorbs);
+        let (mut sf, mut sx) = (vec![], vec![]);
+        let mut rd = AsyncDribble { data: &bytes[HDR..], pos: 0, max };
+        let res = guarded(&ctx, || futures::executor::block_on(async {
+            process_shard_file_info_section_async(&mut rd, |v: MDBFileInfoView| { let mut o = vec![]; v.serialize(&mut o)?; sf.push(o); Ok(()) }).await?;
+            process_shard_cas_info_section_async(&mut rd, |v: MDBCASInfoView| { let mut o = vec![]; v.serialize(&mut o)?; sx.push(o); Ok(()) }).await
+        }));
+        if let Err(e) = res { witness(format!("{ctx}: process_shard_file_info_section_async + process_shard_cas_info_section_async ({how}) fail: {e}; files delivered before the failure: {}", sf.len())); }
+        same_list(&ctx, &format!("the ASYNC walker process_shard_file_info_section_async ({how})"), "file", &sf, &want_files);
+        same_list(&ctx, &format!("the ASYNC walker process_shard_cas_info_section_async after it ({how})"), "xorb", &sx, &want_xorbs);
+    }
+
+    // minimal readers
+    let mut round_trip_src = None;
+    for (inc_f, inc_x) in [(true, true), (true, false), (false, true)] {
+        let wf = if inc_f { &want_files } else { &none };
+        let wx = if inc_x { &want_xorbs } else { &none };
+        let what = format!("MDBMinimalShard::from_reader(include_files={inc_f}, include_cas={inc_x})");
+        let min = guarded(&ctx, || MDBMinimalShard::from_reader(&mut &bytes[..], inc_f, inc_x)).unwrap_or_else(|e| witness(format!("{ctx}: {what} fails: {e}")));
+        let (f, x) = minimal_lists(&ctx, &what, &min);
+        same_list(&ctx, &what, "file", &f, wf);
+        same_list(&ctx, &what, "xorb", &x, wx);
+        for max in [usize::MAX, 5] {
+            let what = format!("MDBMinimalShard::from_reader_async(include_files={inc_f}, include_cas={inc_x}{})", if max == 5 { ", 5 bytes per poll" } else { "" });
+            let mina = guarded(&ctx, || futures::executor::block_on(MDBMinimalShard::from_reader_async(&mut AsyncDribble { data: &bytes, pos: 0, max }, inc_f, inc_x))).unwrap_or_else(|e| witness(format!("{ctx}: {what} fails: {e}")));
+            let (f, x) = minimal_lists(&ctx, &what, &mina);
+            same_list(&ctx, &what, "file", &f, wf);
+            same_list(&ctx, &what, "xorb", &x, wx);
+            if inc_f && inc_x && max == usize::MAX { round_trip_src = Some((min_clone(&min, &bytes, &ctx), mina)); }
+        }
+    }
+    // MDBMinimalShard::serialize round trip (from the sync- and from the async-built minimal shard)
+    let mat: u64 = c.files.values().flat_map(|f| f.segments.iter()).map(|s| s.unpacked_segment_bytes as u64).sum();
+    let stored: u64 = c.xorbs.values().map(|x| x.metadata.num_bytes_in_cas as u64).sum();
+    let on_disk: u64 = c.xorbs.values().map(|x| x.metadata.num_bytes_on_disk as u64).sum();
+    if let Some((a, b)) = round_trip_src {
+        for (src, min) in [("from_reader", a), ("from_reader_async", b)] {
+            let what = format!("MDBMinimalShard::{src}(all) then serialize");
+            let mut out = vec![];
+            guarded(&ctx, || min.serialize(&mut out)).unwrap_or_else(|e| witness(format!("{ctx}: {what} fails: {e}")));
+            let info = guarded(&ctx, || MDBShardInfo::load_from_reader(&mut Cursor::new(&out[..]))).unwrap_or_else(|e| witness(format!("{ctx}: {what}: the output does not load: {e}")));
+            if (info.materialized_bytes(), info.stored_bytes(), info.stored_bytes_on_disk()) != (mat, stored, on_disk) {
+                witness(format!("{ctx}: {what}: the footer totals (materialized, stored, on disk) are {:?}, the records sum to {:?}", (info.materialized_bytes(), info.stored_bytes(), info.stored_bytes_on_disk()), (mat, stored, on_disk)));
+            }
+            let r2 = &mut Cursor::new(&out[..]);
+            let got = guarded(&ctx, || info.read_all_file_info_sections(r2)).unwrap_or_else(|e| witness(format!("{ctx}: {what}, read_all_file_info_sections fails: {e}")));
+            same_list(&ctx, &format!("{what}, re-read by read_all_file_info_sections"), "file", &got.iter().map(layout_file).collect::<Vec<_>>(), &want_files);
+            let got = guarded(&ctx, || info.read_all_cas_blocks_full(r2)).unwrap_or_else(|e| witness(format!("{ctx}: {what}, read_all_cas_blocks_full fails: {e}")));
+            same_list(&ctx, &format!("{what}, re-read by read_all_cas_blocks_full"), "xorb", &got.iter().map(layout_xorb).collect::<Vec<_>>(), &want_xorbs);
+            let m2 = guarded(&ctx, || MDBMinimalShard::from_reader(&mut &out[..], true, true)).unwrap_or_else(|e| witness(format!("{ctx}: {what}, MDBMinimalShard::from_reader of the output fails: {e}")));
+            let (f, x) = minimal_lists(&ctx, &what, &m2);
+            same_list(&ctx, &format!("{what}, re-read by MDBMinimalShard::from_reader"), "file", &f, &want_files);
+            same_list(&ctx, &format!("{what}, re-read by MDBMinimalShard::from_reader"), "xorb", &x, &want_xorbs);
+            let m3 = guarded(&ctx, || futures::executor::block_on(MDBMinimalShard::from_reader_async(&mut AsyncDribble { data: &out, pos: 0, max: 11 }, true, true))).unwrap_or_else(|e| witness(format!("{ctx}: {what}, MDBMinimalShard::from_reader_async of the output fails: {e}")));
+            let (f, x) = minimal_lists(&ctx, &what, &m3);
+            same_list(&ctx, &format!("{what}, re-read by MDBMinimalShard::from_reader_async"), "file", &f, &want_files);
+            same_list(&ctx, &format!("{what}, re-read by MDBMinimalShard::from_reader_async"), "xorb", &x, &want_xorbs);
+        }
+    }
+}
+/// MDBMinimalShard is not Clone: build it again
+fn min_clone(_m: &MDBMinimalShard, bytes: &[u8], ctx: &str) -> MDBMinimalShard {
+    guarded(ctx, || MDBMinimalShard::from_reader(&mut &bytes[..], true, true)).unwrap_or_else(|e| witness(format!("{ctx}: MDBMinimalShard::from_reader fails: {e}")))
+}
+
+/// file records with zero segments in all four flag combinations mixed with ordinary records of all four combinations; `order`
+/// is the hash order of the 8 kinds (kind = zero?4:0 | ver?1:0 | ext?2:0), possibly with repetitions / omissions
+fn zero_mix(rng: &mut StdRng, order: &[u8], zero_xorbs_at: &[usize], n_xorbs: usize) -> Contents {
+    let mut c = Contents::default();
+    let mut xkeys = vec![];
+    for i in 0..n_xorbs {
+        let key = h4((i as u64 + 1) << 56 | rng.random::<u64>() >> 8, rng.random(), rng.random(), rng.random());
+        let n_chunks = if zero_xorbs_at.contains(&i) { 0 } else { 1 + i % 4 };
+        let mut pos = 0u32;
+        let chunks: Vec<CASChunkSequenceEntry> = (0..n_chunks).map(|_| { let len = rng.random_range(1..70_000u32); let e = CASChunkSequenceEntry::new(h4(rng.random(), rng.random(), rng.random(), rng.random()), len, pos); pos += len; e }).collect();
+        let mut header = CASChunkSequenceHeader::new(key, n_chunks, pos);
+        header.num_bytes_on_disk = pos / 2 + 1;
+        c.xorbs.insert(key, MDBCASInfo { metadata: header, chunks });
+        xkeys.push(key);
+    }
+    for (i, kind) in order.iter().enumerate() {
+        let key = h4((i as u64 + 1) << 56 | rng.random::<u64>() >> 8, rng.random(), rng.random(), rng.random());
+        let (zero, ver, ext) = (kind & 4 != 0, kind & 1 != 0, kind & 2 != 0);
+        let n_seg = if zero { 0 } else { 1 + i % 3 };
+        let segments: Vec<FileDataSequenceEntry> = (0..n_seg).map(|_| {
+            let x = if xkeys.is_empty() { h4(rng.random(), 2, 3, 4) } else { xkeys[rng.random_range(0..xkeys.len())] };
+            FileDataSequenceEntry::new(x, rng.random_range(1..1_000_000u32), 0, 1)
+        }).collect();
+        let verification = if ver { (0..n_seg).map(|_| FileVerificationEntry::new(h4(rng.random(), rng.random(), rng.random(), rng.random()))).collect() } else { vec![] };
+        // the sha256 entry of an empty file; random here so that a phantom record is recognisable
+        let metadata_ext = ext.then(|| FileMetadataExt::new(h4(rng.random(), rng.random(), rng.random(), rng.random())));
+        c.files.insert(key, MDBFileInfo { metadata: FileDataSequenceHeader::new(key, n_seg, ver, ext), segments, verification, metadata_ext });
+    }
+    c
+}
+
 fn check_manager(rt: &tokio::runtime::Runtime, rng: &mut StdRng, name: &str, c: &Contents) {
     let ctx = format!("ShardFileManager over shard '{name}' ({} files, {} xorbs)", c.files.len(), c.xorbs.len());
     let dir = tempfile::tempdir().unwrap();
@@ -523,8 +776,37 @@ fn main() {
         ("500 files, 12 xorbs", 500, 12, Uniform, vec![4], false),
         ("12 files, 500 xorbs", 12, 500, Uniform, vec![4], false),
     ];
+    // (own generator, so that the inputs of the older checks below stay what they were for a given VERIF_SEED)
+    let mut rng2 = StdRng::seed_from_u64(seed ^ 0xC09F);
+    // zero-segment mixes through every reader (kind = 4 zero segments | 1 verification | 2 metadata ext)
+    let orders: Vec<(&str, Vec<u8>, Vec<usize>, usize)> = vec![
+        ("a single zero-segment record with metadata ext, no xorbs", vec![6], vec![], 0),
+        ("a single zero-segment record with both flags", vec![7], vec![], 1),
+        ("a single zero-segment record without flags", vec![4], vec![0], 1),
+        ("zero-segment + metadata-ext record first", vec![6, 0, 1, 2, 3, 4, 5, 7], vec![0], 3),
+        ("zero-segment + metadata-ext record last", vec![0, 1, 2, 3, 4, 5, 7, 6], vec![2], 3),
+        ("two zero-segment + metadata-ext records in a row, then an ordinary record", vec![0, 6, 6, 1, 7, 7, 2], vec![1], 3),
+        ("only zero-segment records, all four flag combinations", vec![4, 5, 6, 7], vec![0, 1], 2),
+        ("only zero-segment records with metadata ext", vec![6, 7, 6, 7, 6], vec![], 2),
+        ("all eight kinds ascending", vec![0, 1, 2, 3, 4, 5, 6, 7], vec![0, 4], 5),
+        ("all eight kinds descending", vec![7, 6, 5, 4, 3, 2, 1, 0], vec![2], 5),
+        ("zero-segment and ordinary records alternating", vec![4, 0, 5, 1, 6, 2, 7, 3], vec![4], 5),
+        ("ordinary and zero-segment records alternating", vec![3, 7, 2, 6, 1, 5, 0, 4], vec![], 4),
+    ];
+    for (name, order, zx, nx) in &orders {
+        let c = zero_mix(&mut rng2, order, zx, *nx);
+        check_every_reader(&mut rng2, &format!("zero-segment mix: {name} (file kinds in hash order {order:?}; kind = 4 if zero segments + 1 if verification + 2 if metadata ext)"), &c);
+        check_serialized(&mut rng2, &format!("zero-segment mix: {name}"), &c);
+    }
+    for t in 0..4 {
+        let mut order: Vec<u8> = (0..24).map(|_| rng2.random_range(0..8u8)).collect();
+        if t % 2 == 0 { order.push(6); }
+        let c = zero_mix(&mut rng2, &order, &[0, 3, 6], 7);
+        check_every_reader(&mut rng2, &format!("zero-segment mix: random order #{t} (file kinds in hash order {order:?}; kind = 4 if zero segments + 1 if verification + 2 if metadata ext)"), &c);
+    }
     for (name, nf, nx, dist, groups, with_manager) in configs {
         let c = generate(&mut rng, nf, nx, dist, &groups, true);
+        check_every_reader(&mut rng2, name, &c);
         check_serialized(&mut rng, name, &c);
         if with_manager {
             // with duplicate / prefix-colliding chunks (needs mdb_shard built without debug assertions, as Cargo.toml.in does: with
